@@ -51,7 +51,7 @@ theorem shapeOf_namedTuple_ok {m : LogicalModel} {i : InputShape} {o : OutputSha
           have := hfac
           simp only [List.any_map, List.any_eq_true, not_exists, not_and, Function.comp] at this
           have hf' := this f hf
-          cases hd : f.default <;> simp_all [declField, ntDefault, LDflt.toDflt]
+          cases hd : f.default <;> simp_all [declField, ntDefault, LDflt.toDflt, Dflt.isFactory]
 
 theorem shapeOf_typedDict_ok {m : LogicalModel} {i : InputShape} {o : OutputShape}
     (h : shapeOf .typedDict m = .ok (i, o)) :
